@@ -57,3 +57,60 @@ class TransitionsHelper(Contract):
 
 def registry():
     return {TransitionsHelper.key: TransitionsHelper()}
+
+
+class AssignsToCounts(Contract):
+    """C03 as a contract on assigns_to_counts.  Concrete oracle = the statement: entry (i,j) is the number of pairs
+    (t, t+lag) inside one trajectory (every lag-th pair when not sliding), trailing -1 padding ignored."""
+    key = F + 'assigns_to_counts'
+
+    @staticmethod
+    def rows(assigns):
+        import numpy as np
+        out = []
+        for r in assigns:
+            r = np.asarray(r)
+            k = len(r)
+            while k > 0 and r[k - 1] == -1:
+                k -= 1
+            out.append(r[:k])
+        return out
+
+    def requires(self, L, A, G):
+        import numpy as np
+        rows = self.rows(A['assigns']) if getattr(A['assigns'], 'ndim', 2) != 1 or hasattr(A['assigns'], 'lengths') else []
+        interior = all((np.asarray(r) >= 0).all() for r in rows)
+        mx = A.get('max_n_states')
+        import numbers
+        return [('integral-lag-at-least-1', isinstance(A['lag_time'], numbers.Integral) and A['lag_time'] >= 1),
+                ('two-dimensional-or-ragged', hasattr(A['assigns'], 'lengths') or getattr(A['assigns'], 'ndim', 2) == 2),
+                ('only-trailing-padding', interior),
+                ('some-state-or-explicit-count', mx is not None or any(len(r) for r in rows)),
+                ('states-below-explicit-count', mx is None or all((np.asarray(r) < mx).all() for r in rows))]
+
+    def raises(self, L, A, G):
+        # the statement quantifies over integral lag >= 1 and 2-D / ragged input; what happens outside is not part of C03
+        return {}
+
+    def ensures(self, L, A, N, R, G, V):
+        import numpy as np
+        rows, lag = self.rows(A['assigns']), int(A['lag_time'])
+        sliding = A.get('sliding_window', True)
+        n = A.get('max_n_states')
+        if n is None:
+            n = int(max(int(r.max()) for r in rows if len(r))) + 1
+        want = np.zeros((n, n), dtype=np.int64)
+        total_sliding = 0
+        for r in rows:
+            total_sliding += max(0, len(r) - lag)
+            step = 1 if sliding else lag
+            t = 0
+            while t + lag < len(r):
+                want[int(r[t]), int(r[t + lag])] += 1
+                t += step
+        got = np.asarray(R.toarray() if hasattr(R, 'toarray') else R)
+        out = [('square-with-n-states', got.shape == (n, n)),
+               ('entry-is-number-of-lagged-pairs', got.shape == want.shape and bool((got == want).all()))]
+        if sliding:
+            out.append(('total-is-sum-of-max-0-len-minus-lag', int(got.sum()) == total_sliding))
+        return out
